@@ -25,7 +25,7 @@ for n in names:
             pk = set(f['pkg'] for f in cfg.get('functions',[])) | set(b['pkg'] for b in cfg.get('bounded',[])) | set(l['pkg'] for l in cfg.get('locksets',[])) | set(s['pkg'] for s in cfg.get('structural',[]))
             if not (pk & touched):
                 continue
-            o = subprocess.run(['/verif/bin/govc','check',p],cwd='/verif',capture_output=True,text=True,timeout=1800)
+            o = subprocess.run(['/verif/bin/govc','check',p],cwd='/verif',capture_output=True,text=True,timeout=1800,env=dict(os.environ,VERIF_SELFTEST='1'))
             out = o.stdout + o.stderr
             alarms += [l[:220] for l in out.splitlines() if l.startswith('VIOLATION')]
             undecided += [l[:160] for l in out.splitlines() if l.startswith('UNDECIDED')]
